@@ -343,7 +343,7 @@ pub fn evaluate(plan: &Plan, rec: &RunRecord, st: &mut Stats) {
             }
             let own = if matches!(r.hk, HK::Block(_)) { 0 } else { r.hk.latency_ms() };
             let budget = stall_ms.get(&w).copied().unwrap_or(0) + delays_any + own;
-            let asserted = r.hk != HK::Long && budget * 10 <= t_ms * 6;
+            let asserted = r.hk != HK::Long && budget * 10 <= t_ms.saturating_mul(6);
             if !asserted {
                 st.bump("graceful_outcomes", format!("{}/unasserted_{}/{}", rclass, if r.hk == HK::Long { "long_handler" } else { "slow_worker" }, if answered { "answered" } else { "cut" }));
                 continue;
@@ -540,7 +540,7 @@ pub fn evaluate(plan: &Plan, rec: &RunRecord, st: &mut Stats) {
                     with(json!({"req": req, "conn": conn, "coordinator_wait_ms": coord_ms, "events": events_about(port_of.get(&conn).copied(), &[req]), "full_plan": plan.to_json()})));
             }
         }
-        if coord_ms > 3 * t_ms + 250 {
+        if coord_ms > t_ms.saturating_mul(3).saturating_add(250) {
             let long_running = plan.conns.iter().flat_map(|c| &c.reqs).any(|r| r.hk == HK::Long && enter.get(&r.id).is_some_and(|e| e.0.seq < c_e.seq));
             let detail = with(json!({"coordinator_wait_ms": coord_ms, "timeout_ms": t_ms, "events": events_about(None, &[]), "full_plan": plan.to_json()}));
             if calm {
